@@ -8,6 +8,7 @@ import ESV.Decomp.BrGuard
 import ESV.Decomp.Group
 import ESV.Decomp.SemB
 import ESV.Decomp.GrGuard
+import ESV.Decomp.Switch
 open Lean Drv ESV ESV.Beh ESV.Decomp
 
 namespace Drv.DecompD
@@ -38,13 +39,27 @@ def bgraphTo (g : BGraph) : Json :=
         |>.setObjVal! "multi" (.bool (!v.ifOps.isEmpty))) g.vs),
     ("es", jList (fun (e : BEdge) => Json.arr #[jNat e.src, jNat e.dst, jNat e.level, .bool e.loop, .bool e.isElse]) g.es)]
 
+def swOpTo (t : SwOp) : Json := .arr #[jNat t.1, jNat t.2.1, Json.mkObj (mopTo t.2.2)]
+
+/-- a graph from `build_and_group_switch_cases` on: `bgraphTo` plus the switch markers ("sws", "swe") and, as sixth entry of
+an edge, its `switch_ops` (`[]` for `None`) as `[switch_index, index, op]` -/
+def sgraphTo (g : BGraph) : Json :=
+  let vs := match (bgraphTo g).getObjValD "vs" with
+    | .arr a => a.toList
+    | _ => []
+  Json.mkObj [("vs", .arr ((vs.zip g.vs).map fun (j, v) =>
+      (j.setObjVal! "sws" (jOpt jNat v.switchStart)).setObjVal! "swe" (jList jNat v.switchEnds)).toArray),
+    ("es", jList (fun (e : BEdge) => Json.arr #[jNat e.src, jNat e.dst, jNat e.level, .bool e.loop, .bool e.isElse,
+      jList swOpTo e.switchOps]) g.es)]
+
 def answerTo : Option (Nat × Nat) → Json
   | none => .null
   | some (a, b) => .arr #[jNat a, jNat b]
 
 /-- `build_branches` of the model on the graphs that leave `optimize_paths`, with the recorded answers of the search
 (one list per routine graph); the first exception aborts the phase, as in `build_branches()` -/
-def frontBranches (labels : List Lbl) (gs os : List Graph) (answers : List (List (Option (Nat × Nat)))) : List (String × Json) :=
+def frontBranches (labels : List Lbl) (gs os : List Graph) (answers : List (List (Option (Nat × Nat))))
+    (swAnswers : List (List (Option (List Nat)))) : List (String × Json) :=
   let names := gs.map (optNames labels)
   let bgs := (os.zip names).map fun (o, ns) => BGraph.ofGraph ns o
   let err (e : String) : Json := Json.mkObj [("error", .str e)]
@@ -56,10 +71,17 @@ def frontBranches (labels : List Lbl) (gs os : List Graph) (answers : List (List
         | .error e => [("gb", err e)]
         | .ok gbs => ("gb", jList bgraphTo gbs) :: match gbs.mapM invertBranches with
           | .error e => [("ib", err e)]
-          | .ok ibs => [("ib", jList bgraphTo ibs)]
+          | .ok ibs =>
+            -- build_and_group_switch_cases (search answers recorded from the real run), then group_switch_cases
+            ("ib", jList bgraphTo ibs) :: match (ibs.zipIdx).mapM (fun (b, k) => buildSwitchCases (swAnswers.getD k []) b) with
+              | .error e => [("sc", err e)]
+              | .ok scs => ("sc", jList sgraphTo scs) :: match scs.mapM groupSwitchCases with
+                | .error e => [("gs", err e)]
+                | .ok gss => [("gs", jList sgraphTo gss)]
   ("opt_names", jList (jList (jOpt jNat)) names) :: rest
 
-def front (rs : List (List MOp)) (answers : Option (List (List (Option (Nat × Nat))))) : Json :=
+def front (rs : List (List MOp)) (answers : Option (List (List (Option (Nat × Nat)))))
+    (swAnswers : List (List (Option (List Nat))) := []) : Json :=
   match resolve rs with
   | .error e => Json.mkObj [("error", .str e), ("stage", .str "resolve")]
   | .ok r =>
@@ -71,7 +93,7 @@ def front (rs : List (List MOp)) (answers : Option (List (List (Option (Nat × N
       match gs.mapM (optimizePaths r.labels) with
       | .ok os =>
         let bb := match answers with
-          | some ans => frontBranches r.labels gs os ans
+          | some ans => frontBranches r.labels gs os ans swAnswers
           | none => []
         Json.mkObj (base ++ [("graphs", jList graphTo gs), ("opt", jList graphTo os)] ++ bb)
       | .error e => Json.mkObj (base ++ [("graphs", jList graphTo gs), ("opt", Json.mkObj [("error", .str e)])])
@@ -168,6 +190,15 @@ def answerOf (j : Json) : R (Option (Nat × Nat)) := do
 def answersOf (j : Json) : R (List (List (Option (Nat × Nat)))) := do
   (← asArr j).mapM fun g => do (← asArr g).mapM answerOf
 
+def swAnswerOf (j : Json) : R (Option (List Nat)) := do
+  match j with
+  | .null => pure none
+  | _ => some <$> (← asArr j).mapM asNat
+
+def swAnswersOf (j : Json) : R (List (List (Option (List Nat)))) := do
+  (← asArr j).mapM fun g => do (← asArr g).mapM swAnswerOf
+
+/-- also reads the graphs of `sgraphTo` (optional keys "sws" / "swe", optional sixth entry of an edge) -/
 def bgraphOf (j : Json) : R BGraph := do
   let vs ← (← asArr (← fld j "vs")).mapM fun v => do
     let mops ← match v.getObjVal? "mops" with
@@ -176,10 +207,22 @@ def bgraphOf (j : Json) : R BGraph := do
     let isNot ← match v.getObjVal? "not" with
       | .ok a => asBool a
       | .error _ => pure false
-    pure (⟨← asOpt asNat (← fld v "n"), ← vopOf v, ← asOpt asNat (← fld v "ifs"), ← (← asArr (← fld v "ife")).mapM asNat, mops, isNot⟩ : BVertex)
+    let sws ← match v.getObjVal? "sws" with
+      | .ok a => asOpt asNat a
+      | .error _ => pure none
+    let swe ← match v.getObjVal? "swe" with
+      | .ok a => do (← asArr a).mapM asNat
+      | .error _ => pure []
+    pure (⟨← asOpt asNat (← fld v "n"), ← vopOf v, ← asOpt asNat (← fld v "ifs"), ← (← asArr (← fld v "ife")).mapM asNat, mops, isNot, sws, swe⟩ : BVertex)
   let es ← (← asArr (← fld j "es")).mapM fun e => do
     match (← asArr e) with
-    | [s, d, l, lp, el] => pure (⟨← asNat s, ← asNat d, ← asNat l, ← asBool lp, ← asBool el⟩ : BEdge)
+    | [s, d, l, lp, el] => pure (⟨← asNat s, ← asNat d, ← asNat l, ← asBool lp, ← asBool el, []⟩ : BEdge)
+    | [s, d, l, lp, el, so] =>
+      let ops ← (← asArr so).mapM fun t => do
+        match (← asArr t) with
+        | [si, ix, o] => pure ((← asNat si, ← asNat ix, ← BehD.mopOf o) : SwOp)
+        | _ => throw "bad switch op"
+      pure (⟨← asNat s, ← asNat d, ← asNat l, ← asBool lp, ← asBool el, ops⟩ : BEdge)
     | _ => throw "bad edge"
   pure ⟨vs, es⟩
 
@@ -297,7 +340,10 @@ def handle (op : String) (j : Json) : R Json := do
     let answers ← match j.getObjVal? "answers" with
       | .ok a => some <$> answersOf a
       | .error _ => pure none
-    pure (front rs answers)
+    let swAnswers ← match j.getObjVal? "sw_answers" with
+      | .ok a => swAnswersOf a
+      | .error _ => pure []
+    pure (front rs answers swAnswers)
   | _ => throw s!"unknown op {op}"
 
 end Drv.DecompD
